@@ -1262,6 +1262,13 @@ class Executor:
         la, lb = zi(a2.length), zi(b2.length)
         fa, fb = a2.fn, b2.fn
         kind = a.kind if a.kind != 'any' else b.kind
+        if 'arr5' in (a.kind, b.kind):
+            # cores with five shape slots (a possible 5-d block core) next to ordinary 4-d cores: one representation
+            from vt.e1.values import widen5
+            fa0, fb0 = fa, fb
+            fa = lambda j: widen5(fa0(j)) if isinstance(fa0(j), SArr) else fa0(j)     # noqa
+            fb = lambda j: widen5(fb0(j)) if isinstance(fb0(j), SArr) else fb0(j)     # noqa
+            kind = 'arr5'
         return SList(state.alloc(), z3.simplify(la + lb), fn=lambda j: val_ite(j < la, fa(j), fb(j - la)), kind=kind)
 
     def list_repeat(self, lst, n, state, line):
